@@ -100,4 +100,5 @@ def run(ctx):
                       '%s: %s at tau=%.2f seed=%d: observed %.4f expected %.4f band %.4f' % (r['fam'], what, r['tau'], r['seed'], *r['stats'][name]), r)
     ctx.extra['max_stat_over_band'] = max([abs(o - e) / b for r in recs for (o, e, b) in r['stats'].values()] or [0])
     ctx.sample({k: recs[0][k] for k in ('fam', 'tau', 'seed', 'n', 'stats')})
+    ctx.traces += len(recs)          # observation tables / samples of the real code judged by TLC
     ctx.exhaustive = False
